@@ -402,6 +402,10 @@ pub fn run_marker(dir: &Path, c: &MarkerCase, cache: &mut BTreeMap<(u8, bool, bo
     let before_full = full_sig(dir);
     let before = tree_sig(dir);
     let compatible = c.marker.as_ref().map_or(false, |b| b.len() >= 4 && &b[0..4] == b"FJL\x03");
+    // the marker exactly as this major version writes it must be accepted; a current-version marker
+    // followed by further bytes is neither "absent, unknown or from another major version" nor the
+    // written form: accepting or refusing it are both within the statement
+    let must_open = c.marker.as_deref() == Some(b"FJL\x03".as_slice());
     let r = std::panic::catch_unwind(std::panic::AssertUnwindSafe(|| Database::builder(dir).worker_threads_unchecked(0).open()));
     let res = match r {
         Err(_) => Err("open panicked".to_string()),
@@ -419,7 +423,7 @@ pub fn run_marker(dir: &Path, c: &MarkerCase, cache: &mut BTreeMap<(u8, bool, bo
             }
         }
         Ok(Err(e)) => {
-            if compatible {
+            if must_open {
                 Err(format!("compatible version marker refused: {e:?}"))
             } else {
                 let after = tree_sig(dir);
@@ -461,7 +465,9 @@ pub fn lock_s() -> BoxedStrategy<C17Case> {
 pub fn marker_s() -> BoxedStrategy<C17Case> {
     let bytes = prop_oneof![
         3 => vec(any::<u8>(), 0..8),
-        3 => (0u8..8, vec(any::<u8>(), 0..4)).prop_map(|(v, tail)| {
+        // tails biased to version-like bytes: a reader that looks for the version anywhere but in
+        // byte 3 (last byte, any byte) must not find a "3" there
+        5 => (0u8..8, vec(prop_oneof![3 => 0u8..5, 1 => any::<u8>()], 0..4)).prop_map(|(v, tail)| {
             let mut b = b"FJL".to_vec();
             b.push(v);
             b.extend(tail);
@@ -643,7 +649,7 @@ pub fn check_c17(tier: &str, seed: u64) -> i32 {
         seed,
         "exploration",
         &m,
-        "two generated families. LOCK: sequences of open (all three flavours, 1-3 real worker threads), clone, keyspace handles, handle drops on this or another thread, writes and rotations (queued flush work), with an open attempt at any step: while any Database / transactional database / Keyspace handle is alive the attempt must return Error::Locked and (when the live instance is quiescent) leave names, sizes and content hashes of every file except the lock file unchanged; after the last drop no thread named fjall:worker remains, open succeeds and shows everything written. MARKER: arbitrary bytes (biased to near-misses: FJL+version byte+tail, truncated, case-changed, one byte off, absent) written as the version marker of a populated, cleanly closed directory (with/without flushed tables, with/without an evicted first journal): open succeeds iff the first four bytes are FJL\\x03, otherwise it returns an error and the directory is unchanged. non-trivial = lock sequence with >= 1 refused open, or any marker case on a populated directory; distinct by case hash",
+        "two generated families. LOCK: sequences of open (all three flavours, 1-3 real worker threads), clone, keyspace handles, handle drops on this or another thread, writes and rotations (queued flush work), with an open attempt at any step: while any Database / transactional database / Keyspace handle is alive the attempt must return Error::Locked and (when the live instance is quiescent) leave names, sizes and content hashes of every file except the lock file unchanged; after the last drop no thread named fjall:worker remains, open succeeds and shows everything written. MARKER: arbitrary bytes (biased to near-misses: FJL+version byte+tail, truncated, case-changed, one byte off, absent) written as the version marker of a populated, cleanly closed directory (with/without flushed tables, with/without an evicted first journal): the marker FJL\\x03 as written by this version must open; any marker whose first four bytes are not FJL\\x03 (absent, other or unknown version, garbage, version-like bytes in a tail) must be refused with the directory unchanged; FJL\\x03 followed by further bytes may be accepted (then the content must be right) or refused (then nothing may change). non-trivial = lock sequence with >= 1 refused open, or any marker case on a populated directory; distinct by case hash",
         &["the directory comparison around a refused open is made only while the live instance is quiescent", "an empty directory without marker is a legitimate create and not part of the absent-marker clause"],
         wall,
         violations.len(),
